@@ -538,7 +538,7 @@ Section Proofs.
     pose proof (load_ok (hasdata s) (nslots s) (t_prog t) Hp) as (Ha & Hb).
     pose proof (load_plain (hasdata s) (t_prog t)) as Hc.
     destruct (load V (hasdata s) (t_prog t)) as [p r]; simpl in *.
-    repeat split; auto; try (apply Hr; auto).
+    split; [|split; [auto|split; [auto|auto]]].
     destruct p as [| | [|] | | | | | | | |]; auto; contradiction.
   Qed.
 
@@ -601,7 +601,7 @@ Section Proofs.
         * intros j u Hj. apply (tokj_quiet _ _ u (Hq _ _ Hj) (j6 _ _ Hj)). reflexivity.
         * assert (Hg : g = []).
           { destruct g; auto. exfalso. apply (Hq _ _ Hi). right. right. simpl. discriminate. }
-          subst g. unfold tokj; simpl. repeat split; auto; try contradiction. intros X; contradiction.
+          subst g. unfold tokj; simpl. repeat split; auto; try contradiction; try (intros X; contradiction).
       + intros X; discriminate.
       + rewrite <- updn_upd. rewrite reduce_updn by lia. rewrite reduce_app. simpl. rewrite j10. reflexivity.
     - (* PDec *)
@@ -625,9 +625,8 @@ Section Proofs.
         * intros j u Hj. apply (tokj_quiet _ _ u (Hq _ _ Hj) (j6 _ _ Hj)). reflexivity.
         * subst t'. destruct (cnt =? 1).
           -- unfold tokj, setpc; simpl. destruct hd; simpl; repeat split; auto; try contradiction; try discriminate; intros X; contradiction.
-          -- apply (tokj_next (mkst V hd iv ns (wrap64 (cnt - 1)) false sl res _ c (S dcs) eps _ sub e0 _) (mkthr V (PDec fresh) pr [])); simpl; auto.
-             ++ intros X; contradiction.
-             ++ intros r X; contradiction.
+          -- apply (tokj_next (mkst V hd iv ns (wrap64 (cnt - 1)) false sl res _ c (S dcs) eps _ sub e0 _) (mkthr V (PDec fresh) pr [])); simpl; auto;
+               try (intros X; contradiction); try (intros r X; contradiction).
       + intros X; discriminate.
       + auto.
     - (* PC0 *)
@@ -687,7 +686,7 @@ Section Proofs.
       rewrite Hn2 in Hcc. cbn [isCol t_pc] in Hcc. rewrite (cnt_map_same isCol (release V hd) l (release_col hd)) in Hcc.
       set (s1 := mkst V hd iv ns cnt true sl res l c dcs eps stt sub e0 ov).
       assert (Hmono : forall u, tokj (mkst V hd iv ns cnt rdy sl res l c dcs eps stt sub e0 ov) u -> tokj s1 u).
-      { intros u (u1 & u2 & u3 & u4). unfold tokj; simpl in *. repeat split; auto; try (apply u4; auto).
+      { intros u (u1 & u2 & u3 & u4). unfold tokj; simpl in *. split; [|split; [auto|split; [auto|auto]]].
         destruct (t_pc u); auto. destruct u1; auto. }
       apply mkJ; simpl; rewrite ?updn_upd.
       + auto.
@@ -714,9 +713,8 @@ Section Proofs.
       + lia.
       + rewrite <- updn_upd. apply allT_updn.
         * intros j u Hj. apply (tokj_quiet _ _ u (Hq _ _ Hj) (j6 _ _ Hj)). reflexivity.
-        * apply (tokj_next (mkst V hd iv ns (wrap64 (cnt + Z.of_nat n)) false sl res l c dcs (eps + Z.of_nat n) stt sub e0 ov) (mkthr V (PAdd n) pr [])); simpl; auto.
-          -- intros X; contradiction.
-          -- intros r X; contradiction.
+        * apply (tokj_next (mkst V hd iv ns (wrap64 (cnt + Z.of_nat n)) false sl res l c dcs (eps + Z.of_nat n) stt sub e0 ov) (mkthr V (PAdd n) pr [])); simpl; auto;
+            try (intros X; contradiction); try (intros r X; contradiction).
       + intros X; discriminate.
       + auto.
     - (* PEmpty *)
@@ -748,6 +746,108 @@ Section Proofs.
         intros r Hin. apply in_app_or in Hin. destruct Hin as [Hin|[Hin|[]]]; auto. inversion Hin; subst. auto.
       + intros Hr. destruct (j7 Hr) as (A & B). split; auto. lia.
       + auto.
+  Qed.
+
+  Lemma KJ_exec : forall sched s, K s -> J s -> clean (exec V vop s sched) -> K (exec V vop s sched) /\ J (exec V vop s sched).
+  Proof.
+    induction sched as [|i r IH]; simpl; intros s HK HJ Hc; auto.
+    pose proof (clean_exec_mono _ _ Hc) as Hc1.
+    unfold step_or_stay in *. destruct (step V vop s i) eqn:Hs; auto.
+    apply IH; auto; [eapply K_step; eauto | eapply J_step; eauto].
+  Qed.
+
+  Lemma step_initv : forall s i s', step V vop s i = Some s' -> initv s' = initv s.
+  Proof.
+    intros s i s' Hstep. unfold step in Hstep. destruct (nth_error (thrs s) i) as [t|]; [|discriminate].
+    destruct (t_pc t); try discriminate; inversion Hstep; reflexivity.
+  Qed.
+
+  Lemma exec_initv : forall sched s, initv (exec V vop s sched) = initv s.
+  Proof.
+    induction sched as [|i r IH]; simpl; intros s; auto. rewrite IH. unfold step_or_stay.
+    destruct (step V vop s i) eqn:Hs; auto. eapply step_initv; eauto.
+  Qed.
+
+  Lemma fresh_J : forall (s : state) (progs : list (list (op V))),
+      thrs s = map (fun p => next V (hasdata s) (mkthr V PIdle p [])) progs ->
+      Forall (Forall (progok (nslots s))) progs ->
+      L.cnt isCol (thrs s) = 0%nat /\ allT (tokj s) (thrs s).
+  Proof.
+    intros s progs Ht Hp. rewrite Ht. split.
+    - apply L.cnt_none. intros j t Hj. destruct (fresh_threads _ _ _ _ Hj) as (_ & B & _).
+      destruct (isCol t) eqn:E; auto. exfalso. apply B. left. auto.
+    - intros j t Hj. rewrite nth_error_map in Hj. destruct (nth_error progs j) as [p|] eqn:Hn; simpl in Hj; [|discriminate].
+      inversion Hj; subst t. apply tokj_next; simpl.
+      + rewrite Forall_forall in Hp. apply Hp. eapply nth_error_In; eauto.
+      + intros X; contradiction.
+      + intros r X; contradiction.
+  Qed.
+
+  Lemma J_start : forall hd iv ns c progs, (forall x, vop iv x = x) -> Forall (Forall (progok ns)) progs ->
+      J (start V hd iv ns c progs).
+  Proof.
+    intros hd iv ns c progs Hne Hp.
+    destruct (fresh_J (start V hd iv ns c progs) progs eq_refl Hp) as (A & B).
+    apply mkJ; auto.
+    - simpl. apply repeat_length.
+    - rewrite A. lia.
+    - intros _. split; auto. intros _. simpl. symmetry. apply reduce_repeat_neutral. auto.
+    - simpl. apply reduce_repeat_neutral. auto.
+  Qed.
+
+  Lemma J_reset : forall s n progs, (forall x, vop (initv s) x = x) -> Forall (Forall (progok (nslots s))) progs ->
+      J (reset V s n progs).
+  Proof.
+    intros s n progs Hne Hp.
+    destruct (fresh_J (reset V s n progs) progs eq_refl Hp) as (A & B).
+    apply mkJ; auto.
+    - simpl. apply repeat_length.
+    - rewrite A. lia.
+    - intros _. split; auto. intros _. simpl. symmetry. apply reduce_repeat_neutral. auto.
+    - simpl. apply reduce_repeat_neutral. auto.
+  Qed.
+
+  Lemma KJ_value : forall s i t r, K s -> J s -> nth_error (thrs s) i = Some t -> In (Some r) (t_got t) ->
+      r = reduce (submitted s) (initv s) /\ all_arrived s.
+  Proof.
+    intros s i t r HK HJ Hi Hin.
+    destruct (J6 _ HJ _ _ Hi) as (_ & _ & G1 & G2).
+    destruct (G2 r Hin) as (Hhd & Hr).
+    assert (Hne : t_got t <> []) by (intros E; rewrite E in Hin; contradiction).
+    destruct (J7 _ HJ (G1 Hne)) as (_ & Hres).
+    split.
+    - rewrite Hr, (Hres Hhd). apply (J10 _ HJ).
+    - apply (K_special s i t HK Hi). right. right. auto.
+  Qed.
+
+  (* THE VALUE THEOREM: whatever a wait delivers is the reduction of exactly the submitted values, and at that time
+     every expected submission has been made and folded in *)
+  Lemma sinc_value_start : forall hd iv ns c progs sched i t r,
+      (forall x, vop iv x = x) -> Forall (Forall (progok ns)) progs ->
+      let s := exec V vop (start V hd iv ns c progs) sched in
+      clean s -> nth_error (thrs s) i = Some t -> In (Some r) (t_got t) ->
+      r = reduce (submitted s) iv /\ all_arrived s.
+  Proof.
+    intros hd iv ns c progs sched i t r Hne Hp s Hc Hi Hin.
+    assert (H0 : 0 <= c).
+    { pose proof (clean_exec_mono _ _ Hc) as (_ & _ & H & _). exact H. }
+    destruct (KJ_exec sched _ (K_start hd iv ns c progs H0) (J_start hd iv ns c progs Hne Hp) Hc) as (HK & HJ).
+    pose proof (KJ_value _ _ _ _ HK HJ Hi Hin) as (A & B). split; auto.
+    rewrite A. unfold s. rewrite exec_initv. reflexivity.
+  Qed.
+
+  Lemma sinc_value_reset : forall s0 n progs sched i t r,
+      (forall x, vop (initv s0) x = x) -> Forall (Forall (progok (nslots s0))) progs ->
+      let s := exec V vop (reset V s0 n progs) sched in
+      clean s -> nth_error (thrs s) i = Some t -> In (Some r) (t_got t) ->
+      r = reduce (submitted s) (initv s0) /\ all_arrived s.
+  Proof.
+    intros s0 n progs sched i t r Hne Hp s Hc Hi Hin.
+    assert (H0 : 0 <= n).
+    { pose proof (clean_exec_mono _ _ Hc) as (_ & _ & H & _). exact H. }
+    destruct (KJ_exec sched _ (K_reset s0 n progs H0) (J_reset s0 n progs Hne Hp) Hc) as (HK & HJ).
+    pose proof (KJ_value _ _ _ _ HK HJ Hi Hin) as (A & B). split; auto.
+    rewrite A. unfold s. rewrite exec_initv. reflexivity.
   Qed.
 
   (* ---------------------------------------------------------------- reset *)
